@@ -88,7 +88,7 @@ Lemma run_safe : forall ops allocs t s base, WInv t s base -> rops_ok mn mx ops 
   end.
 Proof.
   induction ops as [|op rest IH]; intros allocs t s base W OK; [reflexivity|].
-  cbn [r_run]. destruct op as [|d|k|k v]; cbn [rops_ok r_spec] in *.
+  cbn [r_run]. destruct op as [|d|d|k|k v|a b]; cbn [rops_ok r_spec] in *; try discriminate.
   - destruct (if grows t mn (mx + 1) then next_alloc allocs else (true, allocs)) as [ok allocs'].
     destruct (t_make_accessible pol ok t mn (mx + 1)) as [t'|i| |] eqn:M; try exact I.
     + destruct W as (HI & _). destruct (enter_winv _ _ _ _ _ HI M) as [base' W']. apply (IH allocs' t' s base' W' OK).
@@ -125,3 +125,68 @@ Proof.
   - exact (make_accessible_no_oob _ _ _ _ _ _ M).
 Qed.
 End Protocol.
+
+(** ** unchecked mode *)
+Section Unchecked.
+Variable pol : policy.
+Hypothesis HP : PolicyOK pol.
+Variable m : Z.
+Hypothesis Hm : 0 <= m < MAG.
+
+(** the cells [-m .. m] are inside the buffer *)
+Definition UInv (t : rtape) (s : tspec) (base : Z) : Prop :=
+  Inv t s base /\ 0 <= - m + base /\ m + base < t_size t.
+
+Lemma urun_safe : forall ops allocs t s base, UInv t s base -> uops_ok m ops (s_pos s) = true ->
+  match r_run pol 0 0 ops allocs t with
+  | TOk (log, _) => vals_of log = r_spec ops (s_cells s) (s_pos s)
+  | RawOob _ => False
+  | _ => True
+  end.
+Proof.
+  induction ops as [|op rest IH]; intros allocs t s base W OK; [reflexivity|].
+  cbn [r_run]. destruct op as [|d|d|k|k v|a b]; cbn [uops_ok r_spec] in *; try discriminate.
+  - apply andb_prop in OK. destruct OK as [Sm OK]. apply small_spec in Sm. destruct W as (HI & L & U).
+    apply (IH allocs (t_mov t d) {| s_cells := s_cells s; s_pos := s_pos s + d; s_acc := s_acc s |} base); [|exact OK].
+    split; [apply (mov_inv t s base HI d Sm)|]. cbn [t_mov t_size]. lia.
+  - apply andb_prop in OK. destruct OK as [Kb OK]. apply andb_prop in Kb. destruct Kb as [Kb Ks].
+    apply andb_prop in Kb. destruct Kb as [K1 K2]. apply Z.leb_le in K1. apply Z.leb_le in K2. apply small_spec in Ks.
+    destruct W as (HI & L & U).
+    assert (G : r_get t k = TOk (s_cells s (s_pos s + k))).
+    { unfold r_get. pose proof (check_spec t s base HI k Ks) as C. unfold t_check in C. rewrite C.
+      assert (A : (0 <=? s_pos s + k + base) = true) by (apply Z.leb_le; lia).
+      assert (B : (s_pos s + k + base <? t_size t) = true) by (apply Z.ltb_lt; lia).
+      rewrite A, B. cbn [andb]. f_equal.
+      pose proof (read_spec t s base HI k Ks) as RS. unfold t_read in RS.
+      pose proof C as C'. rewrite A, B in C'. cbn [andb] in C'. rewrite C' in RS. exact RS. }
+    rewrite G. pose proof (IH allocs t s base (conj HI (conj L U)) OK) as R.
+    destruct (r_run pol 0 0 rest allocs t) as [[vs tf]|i| |]; try exact R. cbn [vals_of]. rewrite R. reflexivity.
+  - apply andb_prop in OK. destruct OK as [Kb OK]. apply andb_prop in Kb. destruct Kb as [Kb Ks].
+    apply andb_prop in Kb. destruct Kb as [K1 K2]. apply Z.leb_le in K1. apply Z.leb_le in K2. apply small_spec in Ks.
+    destruct W as (HI & L & U).
+    destruct (raw_write_inv t s base HI k v Ks ltac:(lia)) as (t' & Wr & HI').
+    unfold r_set. rewrite Wr.
+    apply (IH allocs t' {| s_cells := fun i => if i =? s_pos s + k then v else s_cells s i; s_pos := s_pos s; s_acc := s_acc s |} base); [|exact OK].
+    split; [eapply forget_acc; exact HI'|].
+    unfold t_raw_write in Wr. destruct ((0 <=? t_ptr t k) && (t_ptr t k <? t_size t)); [|discriminate].
+    injection Wr as <-. cbn [t_size]. lia.
+Qed.
+
+(** the caller pre-allocates [-m, m]; the interpreter makes its window accessible on entry (any
+    window inside the region changes nothing); then raw moves and raw accesses *)
+Theorem unchecked_safe : forall ops allocs, uops_ok m ops 0 = true ->
+  match r_run pol 0 0 (RPre (- m) (m + 1) :: ops) allocs rtape0 with
+  | TOk (log, _) => vals_of log = r_spec ops (fun _ => 0) 0
+  | RawOob _ => False
+  | _ => True
+  end.
+Proof.
+  intros ops allocs OK. cbn [r_run].
+  destruct (if grows rtape0 (- m) (m + 1) then next_alloc allocs else (true, allocs)) as [ok allocs'].
+  destruct (t_make_accessible pol ok rtape0 (- m) (m + 1)) as [t'|i| |] eqn:M; try exact I.
+  - destruct (grow_inv pol rtape0 spec0 0 (- m) (m + 1) ok t' HP inv0 M) as (base' & HI' & R1 & R2).
+    apply (urun_safe ops allocs' t' spec0 base'); [|exact OK].
+    split; [eapply forget_acc; exact HI'|]. cbn [spec0 s_pos] in *. lia.
+  - exact (make_accessible_no_oob _ _ _ _ _ _ M).
+Qed.
+End Unchecked.
